@@ -173,6 +173,14 @@ def handle (ds : DState) (op : String) (args impl : List String) : Option (DStat
   if !op.startsWith "sr_" then none else
   let st := ds.store
   let fin (o : Out) : Option (DState × Out) := some (ds, o)
+  if op == "sr_mkalias" then
+    -- a creation like `mk`: remember the slot, and that the state changed since the last dump
+    match args, impl with
+    | slot :: _, ["ok", id, _] =>
+      some ({ ds with store := { st with slotIds := (slot, id) :: st.slotIds.filter (·.1 != slot), sinceDump := st.sinceDump ++ [("mk.O", true)] } },
+            .ok "sr_mkalias.ok")
+    | _, _ => some ({ ds with store := { st with sinceDump := st.sinceDump ++ [("mk.O", false)] } }, .ok "sr_mkalias.err")
+  else
   match st.lastDump with
   | none => fin (.malformed "search query without a dump")
   | some d =>
